@@ -420,6 +420,8 @@ struct CompileEnv {
     clock_seed: u64,
     max_jump: u64,
     plan: Option<SinkPlan>,
+    /// read the lexicon in two parts (split after this many lines) with resolve + compile in between
+    staged_at: Option<usize>,
 }
 
 /// compile on a fresh thread (fresh hasher keys) under the simulated clock
@@ -442,7 +444,23 @@ fn compile_on_thread(
                         b.set_compile_time(SystemTime::UNIX_EPOCH + Duration::from_secs(time));
                         b.set_description(desc.clone());
                         b.read_conn(matrix.as_bytes()).map_err(|e| format!("read_conn: {}", e))?;
-                        b.read_lexicon(csv.as_bytes()).map_err(|e| format!("read_lexicon: {}", e))?;
+                        match env.staged_at {
+                            None => {
+                                b.read_lexicon(csv.as_bytes()).map_err(|e| format!("read_lexicon: {}", e))?;
+                            }
+                            Some(k) => {
+                                // the first rows alone (their forward references may not resolve or validate yet:
+                                // results of this stage are ignored), an intermediate compile, then the rest
+                                let lines: Vec<&str> = csv.split_inclusive('\n').collect();
+                                let k = k.min(lines.len());
+                                let (p1, p2): (String, String) = (lines[..k].concat(), lines[k..].concat());
+                                b.read_lexicon(p1.as_bytes()).map_err(|e| format!("read_lexicon(1): {}", e))?;
+                                let _ = b.resolve();
+                                let mut scratch: Vec<u8> = Vec::new();
+                                let _ = b.compile(&mut scratch);
+                                b.read_lexicon(p2.as_bytes()).map_err(|e| format!("read_lexicon(2): {}", e))?;
+                            }
+                        }
                         b.resolve().map_err(|e| format!("resolve: {}", e))?;
                         b.compile(&mut sink).map_err(|e| format!("compile: {}", e))?;
                     }
@@ -513,6 +531,40 @@ fn observe<D: DictionaryAccess>(dict: &D, dic: u8, n: usize) -> Result<Vec<Entry
         let wid = WordId::new(dic, i as u32);
         let wi = lex.get_word_info(wid).map_err(|e| format!("entry {}: {}", i, e))?;
         let pos = g.pos_list.get(wi.pos_id() as usize).cloned().ok_or_else(|| format!("entry {}: pos id {} out of range", i, wi.pos_id()))?;
+        // the same entry through a seeded partial field request: every requested field must equal the full load
+        {
+            let bits = ((i as u32).wrapping_mul(2654435761) >> 7) & 1023;
+            let sub = InfoSubset::from_bits_truncate(bits);
+            let ws = lex.get_word_info_subset(wid, sub).map_err(|e| format!("entry {} subset {:#x}: {}", i, bits, e))?;
+            let bad = |f: &str| Err(format!("entry {}: field {} loaded with subset {:#x} differs from the full load", i, f, bits));
+            if sub.contains(InfoSubset::SURFACE) && ws.surface() != wi.surface() {
+                return bad("surface");
+            }
+            if sub.contains(InfoSubset::SURFACE | InfoSubset::NORMALIZED_FORM) && ws.normalized_form() != wi.normalized_form() {
+                return bad("normalized_form");
+            }
+            if sub.contains(InfoSubset::SURFACE | InfoSubset::READING_FORM) && ws.reading_form() != wi.reading_form() {
+                return bad("reading_form");
+            }
+            if sub.contains(InfoSubset::POS_ID) && ws.pos_id() != wi.pos_id() {
+                return bad("pos_id");
+            }
+            if sub.contains(InfoSubset::DIC_FORM_WORD_ID) && ws.dictionary_form_word_id() != wi.dictionary_form_word_id() {
+                return bad("dictionary_form_word_id");
+            }
+            if sub.contains(InfoSubset::SPLIT_A) && ws.a_unit_split() != wi.a_unit_split() {
+                return bad("split_a");
+            }
+            if sub.contains(InfoSubset::SPLIT_B) && ws.b_unit_split() != wi.b_unit_split() {
+                return bad("split_b");
+            }
+            if sub.contains(InfoSubset::WORD_STRUCTURE) && ws.word_structure() != wi.word_structure() {
+                return bad("word_structure");
+            }
+            if sub.contains(InfoSubset::SYNONYM_GROUP_ID) && ws.synonym_group_ids() != wi.synonym_group_ids() {
+                return bad("synonym_group_ids");
+            }
+        }
         out.push(EntryObs {
             headword: wi.surface().to_string(),
             head_len: wi.head_word_length(),
@@ -623,7 +675,12 @@ pub fn execute(case: &RtCase, stats: &mut Stats, work: &Path) -> Option<Violatio
             sys_csv.clone(),
             case.compile_time,
             case.description.clone(),
-            CompileEnv { clock_seed: case.clock_seeds[k], max_jump: case.max_jump_s, plan },
+            CompileEnv {
+                clock_seed: case.clock_seeds[k],
+                max_jump: case.max_jump_s,
+                plan,
+                staged_at: if k == 1 && case.sink_seed % 3 == 0 && !sys_csv.contains('"') { Some((case.sink_seed as usize / 3) % (rec.system.entries.len().max(1))) } else { None },
+            },
         );
         let (sys_bytes, reads, now) = match r {
             Err(p) => return viol("panic", &p.site, k, json!({"stage":"compile-system","message":p.msg})),
@@ -668,7 +725,7 @@ pub fn execute(case: &RtCase, stats: &mut Stats, work: &Path) -> Option<Violatio
                 csv,
                 case.compile_time,
                 case.description.clone(),
-                CompileEnv { clock_seed: case.clock_seeds[k] ^ (ui as u64 + 1), max_jump: case.max_jump_s, plan },
+                CompileEnv { clock_seed: case.clock_seeds[k] ^ (ui as u64 + 1), max_jump: case.max_jump_s, plan, staged_at: None },
             );
             match r {
                 Err(p) => return viol("panic", &p.site, k, json!({"stage":"compile-user","message":p.msg,"user":ui})),
